@@ -70,6 +70,12 @@ type Case struct {
 	// vertices, and the graph is QUERIED after every edge (history: whatever a query leaves
 	// behind in the Graph must not survive a later AddEdge); only the final answer is judged
 	Incremental bool
+	// Build: another way of writing the same simple graph down (0 = each edge once with from < to,
+	// then the isolated vertices). 1: every edge first, then AddNode for EVERY vertex (also those
+	// that already have edges); 2: endpoints reversed (from > to) and every edge given twice;
+	// 3: two AddEdge calls per edge instead of AddUndirectedEdge; 4: Init(cap) first; 5: built once,
+	// Init again (a populated graph is re-initialised), built again.
+	Build int
 }
 
 // pairs[k] = k-th vertex pair, ordered so that the graphs on n vertices use the first n(n-1)/2 bits.
@@ -122,6 +128,12 @@ func (c Case) describe() map[string]any {
 		m["vertices"] = c.N
 		m["edges"] = fmt.Sprint(c.edgeList())
 		m["isolatedVerticesAddedWithAddNode"] = true
+		if c.Incremental {
+			m["construction"] = "all vertices first, then the edges one by one with a query after each"
+		}
+		if c.Build > 0 {
+			m["construction"] = [...]string{"", "edges first, then AddNode for every vertex", "endpoints reversed, every edge given twice", "two AddEdge calls per edge", "Init(n) first", "built, Init(1) on the populated graph, built again"}[c.Build]
+		}
 		if c.Kind == kBK {
 			m["P"] = append([]int(nil), c.Perm...)
 			if c.AliasX {
@@ -143,12 +155,15 @@ type Outcome struct {
 	PanicVal string
 	Stack    string
 
-	Sel      []Item         // Knapsack
-	Map      map[int][]Item // FindDpSolvers
-	Best     []Item         // DpSolvers.Best(Limit)
-	BestOver []Item         // DpSolvers.BestAllowMinOverflow(Limit)
-	Cliques  [][]int        // GetMaximalCliques / BronKerbosch
-	Stale    string         // non-empty: an earlier result changed during this call
+	Sel          []Item         // Knapsack
+	Map          map[int][]Item // FindDpSolvers
+	Best         []Item         // DpSolvers.Best(Limit)
+	BestOver     []Item         // DpSolvers.BestAllowMinOverflow(Limit)
+	ItemsChanged string
+	BestX        [][]Item // Best(x) for x = 0..Limit-1 on the same map
+	BestOvX      [][]Item // BestAllowMinOverflow(x) for x = 0..Limit-1
+	Cliques      [][]int  // GetMaximalCliques / BronKerbosch
+	Stale        string   // non-empty: an earlier result changed during this call
 }
 
 func weightOf(i Item) int { return i.W }
@@ -192,6 +207,9 @@ func runCase(c Case) (out Outcome) {
 		case kKnapsack:
 			items := append([]Item(nil), c.Items...)
 			out.Sel = algz.Knapsack(c.Limit, items, weightOf, valueOf, breakerFor(c.Breaker)...)
+			if !sameItems(items, c.Items) {
+				out.ItemsChanged = fmt.Sprintf("Knapsack changed its item list from %v to %v", c.Items, items)
+			}
 			// a returned selection is a value: it must not change when Knapsack is called again
 			if len(heldSel) != len(heldCopy) || !sameItems(heldSel, heldCopy) {
 				out.Stale = fmt.Sprintf("the selection returned by the previous Knapsack call (%s) read %v when it was returned and %v after this call", heldCase.describe(), heldCopy, heldSel)
@@ -203,6 +221,13 @@ func runCase(c Case) (out Outcome) {
 			out.Map = m
 			out.Best = m.Best(c.Limit)
 			out.BestOver = m.BestAllowMinOverflow(c.Limit)
+			for x := 0; x < c.Limit; x++ {
+				out.BestX = append(out.BestX, m.Best(x))
+				out.BestOvX = append(out.BestOvX, m.BestAllowMinOverflow(x))
+			}
+			if !sameItems(items, c.Items) {
+				out.ItemsChanged = fmt.Sprintf("FindDpSolvers changed its item list from %v to %v", c.Items, items)
+			}
 		case kCliques, kBK:
 			var g algz.Graph[int]
 			if c.Incremental {
@@ -219,18 +244,37 @@ func runCase(c Case) (out Outcome) {
 				out.Cliques = g.GetMaximalCliques()
 				return
 			}
-			hasEdge := make([]bool, c.N)
-			for k := 0; k < c.N*(c.N-1)/2; k++ {
-				if e := pairs[k]; c.Edges>>uint(k)&1 == 1 {
-					g.AddUndirectedEdge(e[0], e[1])
-					hasEdge[e[0]], hasEdge[e[1]] = true, true
+			build := func() {
+				hasEdge := make([]bool, c.N)
+				for k := 0; k < c.N*(c.N-1)/2; k++ {
+					if e := pairs[k]; c.Edges>>uint(k)&1 == 1 {
+						switch c.Build {
+						case 2:
+							g.AddUndirectedEdge(e[1], e[0])
+							g.AddUndirectedEdge(e[1], e[0])
+						case 3:
+							g.AddEdge(e[0], e[1])
+							g.AddEdge(e[1], e[0])
+						default:
+							g.AddUndirectedEdge(e[0], e[1])
+						}
+						hasEdge[e[0]], hasEdge[e[1]] = true, true
+					}
+				}
+				for v := 0; v < c.N; v++ {
+					if !hasEdge[v] || c.Build == 1 {
+						g.AddNode(v)
+					}
 				}
 			}
-			for v := 0; v < c.N; v++ {
-				if !hasEdge[v] {
-					g.AddNode(v)
-				}
+			switch c.Build {
+			case 4:
+				g.Init(c.N)
+			case 5:
+				build()
+				g.Init(1)
 			}
+			build()
 			if c.Kind == kCliques {
 				out.Cliques = g.GetMaximalCliques()
 				return
@@ -404,6 +448,9 @@ func judgeKnapsack(c Case, out Outcome, opt int, s *shard) {
 		s.violation("Knapsack|panic|"+common.PanicSite(out.Stack), "Knapsack panicked: "+out.PanicVal, c, gt)
 		return
 	}
+	if out.ItemsChanged != "" {
+		s.violation("Knapsack|item-list-modified", out.ItemsChanged, c, gt)
+	}
 	if out.Stale != "" {
 		s.violation("Knapsack|result-changed-after-a-later-call", out.Stale, c, gt)
 	}
@@ -516,6 +563,9 @@ func judgeDp(c Case, out Outcome, tab *subsetTable, attain []bool, s *shard) {
 		s.violation("FindDpSolvers|panic|"+common.PanicSite(out.Stack), "FindDpSolvers / Best / BestAllowMinOverflow panicked: "+out.PanicVal, c, gt)
 		return
 	}
+	if out.ItemsChanged != "" {
+		s.violation("FindDpSolvers|item-list-modified", out.ItemsChanged, c, gt)
+	}
 	cls := tbClass(c.Breaker)
 	mapBad := false
 	bad := func(kind, what string) {
@@ -576,6 +626,41 @@ func judgeDp(c Case, out Outcome, tab *subsetTable, attain []bool, s *shard) {
 	default:
 		// Neither the exact total nor (in a map built with allowOverOnce) an overshoot exists: the
 		// property does not say what is returned (the code returns the nearest total below).
+	}
+	// the same map queried below the value it was built for: every total <= maxValue that is
+	// attainable is a key, so the answers are determined for every x < maxValue as well
+	for x := 0; x < maxV && x < len(out.BestX); x++ {
+		bb := 0
+		for t := 0; t <= x && t <= tab.totV; t++ {
+			if attain[t] {
+				bb = t
+			}
+		}
+		_, sum, twice, foreign := inspect(out.BestX[x], c.Items)
+		if foreign || twice || sum != bb {
+			s.violation("DpSolvers.Best|wrong-total|queried-below-the-built-value", fmt.Sprintf("map built for maxValue %d: Best(%d) = %v (total %d, proper selection: %v); the largest attainable total <= %d is %d", maxV, x, out.BestX[x], sum, !foreign && !twice, x, bb), c, gt)
+			break
+		}
+		want := -1
+		if x <= tab.totV && attain[x] {
+			want = x
+		} else {
+			for t := x + 1; t <= tab.totV; t++ {
+				if attain[t] {
+					if t <= maxV || c.AllowOver {
+						want = t
+					}
+					break
+				}
+			}
+		}
+		if want >= 0 {
+			_, sum, twice, foreign = inspect(out.BestOvX[x], c.Items)
+			if foreign || twice || sum != want {
+				s.violation("DpSolvers.BestAllowMinOverflow|wrong-total|queried-below-the-built-value", fmt.Sprintf("map built for maxValue %d: BestAllowMinOverflow(%d) = %v (total %d, proper selection: %v); want the total %d (exact if attainable, else the smallest overshoot)", maxV, x, out.BestOvX[x], sum, !foreign && !twice, x, want), c, gt)
+				break
+			}
+		}
 	}
 }
 
@@ -828,6 +913,12 @@ func graphSpace(r *common.Run, maxN int, allPermsUpTo int) {
 				ci.Kind, ci.Incremental = kCliques, true
 				run(ci)
 				n1++
+				for b := 1; b <= 5; b++ {
+					cb := base
+					cb.Kind, cb.Build = kCliques, b
+					run(cb)
+					n1++
+				}
 				for _, alias := range []bool{false, true} {
 					perms := permsPlain
 					if alias {
